@@ -25,6 +25,42 @@ def FreshRun : Q → List Op → Prop
 
 theorem coherent_empty : Coherent {} := ⟨by simp, by simp⟩
 
+/-- `Fresh`, decided -/
+def freshB (q : Q) : Op → Bool
+  | .prepBegin a => q.queue.all (fun e => e.addr != a)
+  | .prepEnd a _ => q.queue.all (fun e => e.addr != a)
+  | _ => true
+
+/-- `FreshRun`, decided along the run -/
+def freshRunB : Q → List Op → Bool
+  | _, [] => true
+  | q, op :: rest =>
+    freshB q op && (match step q op with
+                    | .ok q' => freshRunB q' rest
+                    | .error _ => true)
+
+theorem freshB_sound {q : Q} {op : Op} (h : freshB q op = true) : Fresh q op := by
+  cases op with
+  | prepBegin a =>
+    simp only [freshB, List.all_eq_true, bne_iff_ne] at h
+    exact h
+  | prepEnd a j =>
+    simp only [freshB, List.all_eq_true, bne_iff_ne] at h
+    exact h
+  | alloc => trivial
+  | submit a => trivial
+  | take => trivial
+
+theorem freshRunB_sound : ∀ (ops : List Op) (q : Q), freshRunB q ops = true → FreshRun q ops
+  | [], _, _ => trivial
+  | op :: rest, q, h => by
+    simp only [freshRunB, Bool.and_eq_true] at h
+    refine ⟨freshB_sound h.1, ?_⟩
+    intro q' hq'
+    have h2 := h.2
+    rw [hq'] at h2
+    exact freshRunB_sound rest q' h2
+
 theorem coherent_below {q : Q} (hc : Coherent q) : ∀ e ∈ q.queue, e.addr < q.heap.length := by
   intro e he
   have := hc.1 e he
